@@ -79,6 +79,9 @@ OSIM_NOSAN int __wrap_rand(void) {
 } // extern "C"
 
 // ------------------------------------------------------------------ heap layer (sim flavour only)
+// Always on in the sim flavour: every block gets a seeded front padding (0..240 bytes in units of 16) and fresh
+// blocks are filled with seeded garbage, so pointer order, pointer hashes and uninitialised reads all depend on
+// the plan's heap seed. Aligned allocations bypass the layer and are remembered in a small table.
 #if defined(OSIM_HEAP_LAYER)
 extern "C" {
 void * __libc_malloc(size_t);
@@ -89,7 +92,6 @@ void * __libc_memalign(size_t, size_t);
 }
 
 namespace {
-// Header placed right before the user pointer: magic + offset back to the libc block + user size.
 struct Hdr {
     uint64_t magic;
     uint32_t back;
@@ -97,9 +99,12 @@ struct Hdr {
     uint64_t size;
 };
 constexpr uint64_t MAGIC = 0x051a51a51a51a5ull;
-volatile bool g_heapOn = false;
 volatile uint64_t g_heapState = 0x9e3779b97f4a7c15ull;
 volatile uint64_t g_allocs = 0;
+volatile bool g_garbage = true;
+constexpr int MAXAL = 1024;
+void * g_aligned[MAXAL];
+int g_nAligned = 0;
 
 OSIM_NOSAN inline uint64_t nextRnd() {
     uint64_t x = g_heapState;
@@ -114,9 +119,7 @@ OSIM_NOSAN void * layeredAlloc(size_t size, bool zero) {
     ++g_allocs;
     uint64_t r = nextRnd();
     size_t padUnits = (size_t)(r >> 60); // 0..15 units of 16 bytes
-    size_t front = sizeof(Hdr) + padUnits * 16;
-    // keep 16-byte alignment of the user pointer: libc blocks are 16-aligned, Hdr is 24 bytes -> round up
-    front = (front + 15) & ~(size_t)15;
+    size_t front = 32 + padUnits * 16;   // >= sizeof(Hdr), keeps 16-byte alignment
     char * raw = (char *)__libc_malloc(front + size + 8);
     if (!raw) return nullptr;
     char * user = raw + front;
@@ -126,12 +129,21 @@ OSIM_NOSAN void * layeredAlloc(size_t size, bool zero) {
     h->pad = 0;
     h->size = size;
     if (zero) memset(user, 0, size);
-    else {
+    else if (g_garbage) {
         unsigned char fill = (unsigned char)(r >> 8);
         if (fill == 0) fill = 0xA5;
         memset(user, fill, size);
     }
     return user;
+}
+OSIM_NOSAN inline bool isAligned(void * p, bool remove) {
+    for (int i = 0; i < g_nAligned; ++i) {
+        if (g_aligned[i] == p) {
+            if (remove) g_aligned[i] = g_aligned[--g_nAligned];
+            return true;
+        }
+    }
+    return false;
 }
 OSIM_NOSAN inline Hdr * hdrOf(void * p) {
     Hdr * h = (Hdr *)((char *)p - sizeof(Hdr));
@@ -140,60 +152,47 @@ OSIM_NOSAN inline Hdr * hdrOf(void * p) {
 } // namespace
 
 extern "C" {
-OSIM_NOSAN void * malloc(size_t size) {
-    if (!g_heapOn) return __libc_malloc(size);
-    return layeredAlloc(size, false);
-}
+OSIM_NOSAN void * malloc(size_t size) { return layeredAlloc(size, false); }
 OSIM_NOSAN void * calloc(size_t n, size_t sz) {
-    if (!g_heapOn) return __libc_calloc(n, sz);
     size_t total;
     if (__builtin_mul_overflow(n, sz, &total)) { errno = ENOMEM; return nullptr; }
     return layeredAlloc(total, true);
 }
 OSIM_NOSAN void free(void * p) {
     if (!p) return;
-    // A block may have been allocated before the layer was switched on; such blocks have no header.
-    // Headers are only looked for while the layer is (or was) on.
-    if (g_allocs) {
-        Hdr * h = hdrOf(p);
-        if (h) {
-            char * raw = (char *)p - h->back;
-            h->magic = 0;
-            memset(p, 0xDD, h->size < 64 ? h->size : 64); // poison the start of freed blocks
-            __libc_free(raw);
-            return;
-        }
+    if (g_nAligned && isAligned(p, true)) { __libc_free(p); return; }
+    Hdr * h = hdrOf(p);
+    if (h) {
+        char * raw = (char *)p - h->back;
+        h->magic = 0;
+        memset(p, 0xDD, h->size < 64 ? h->size : 64); // poison the start of freed blocks
+        __libc_free(raw);
+        return;
     }
     __libc_free(p);
 }
 OSIM_NOSAN void * realloc(void * p, size_t size) {
     if (!p) return malloc(size);
-    if (g_allocs) {
-        Hdr * h = hdrOf(p);
-        if (h) {
-            void * n = g_heapOn ? layeredAlloc(size, false) : __libc_malloc(size);
-            if (!n) return nullptr;
-            memcpy(n, p, h->size < size ? h->size : size);
-            free(p);
-            return n;
-        }
-    }
-    if (g_heapOn) {
-        // plain libc block moving into the layered world: size unknown, let libc move it first
-        void * q = __libc_realloc(p, size);
-        if (!q) return nullptr;
+    if (g_nAligned && isAligned(p, false)) return __libc_realloc(p, size);
+    Hdr * h = hdrOf(p);
+    if (h) {
         void * n = layeredAlloc(size, false);
-        if (!n) return q;
-        memcpy(n, q, size);
-        __libc_free(q);
+        if (!n) return nullptr;
+        memcpy(n, p, h->size < size ? h->size : size);
+        free(p);
         return n;
     }
     return __libc_realloc(p, size);
 }
-OSIM_NOSAN void * memalign(size_t a, size_t s) { return __libc_memalign(a, s); }
-OSIM_NOSAN void * aligned_alloc(size_t a, size_t s) { return __libc_memalign(a, s); }
-OSIM_NOSAN int posix_memalign(void ** out, size_t a, size_t s) {
+OSIM_NOSAN static void * alignedAlloc(size_t a, size_t s) {
     void * p = __libc_memalign(a, s);
+    if (p && g_nAligned < MAXAL) g_aligned[g_nAligned++] = p;
+    return p;
+}
+OSIM_NOSAN void * memalign(size_t a, size_t s) { return alignedAlloc(a, s); }
+OSIM_NOSAN void * aligned_alloc(size_t a, size_t s) { return alignedAlloc(a, s); }
+OSIM_NOSAN int posix_memalign(void ** out, size_t a, size_t s) {
+    void * p = alignedAlloc(a, s);
     if (!p) return ENOMEM;
     *out = p;
     return 0;
@@ -201,10 +200,10 @@ OSIM_NOSAN int posix_memalign(void ** out, size_t a, size_t s) {
 }
 
 namespace osim {
-void heapLayerConfigure(uint64_t seed, bool enable) {
+void heapLayerConfigure(uint64_t seed, bool garbage) {
     g_heapState = seed * 0x9e3779b97f4a7c15ull + 0x1234567ull;
     if (g_heapState == 0) g_heapState = 1;
-    g_heapOn = enable;
+    g_garbage = garbage;
 }
 uint64_t heapLayerAllocs() { return g_allocs; }
 } // namespace osim
